@@ -11,8 +11,10 @@ pub const fn change_const_primitive(primitive: idlc_mir::Primitive) -> &'static 
         idlc_mir::Primitive::Int16 => "INT16_C",
         idlc_mir::Primitive::Int32 => "INT32_C",
         idlc_mir::Primitive::Int64 => "INT64_C",
-        idlc_mir::Primitive::Float32 => "FLOAT",
-        idlc_mir::Primitive::Float64 => "DOUBLE",
+        // no FLOAT()/DOUBLE() macro exists anywhere: a cast of the parenthesised literal
+        // reads `(float)(1.5)` and works for integer-looking literals as well
+        idlc_mir::Primitive::Float32 => "(float)",
+        idlc_mir::Primitive::Float64 => "(double)",
     }
 }
 
